@@ -668,7 +668,7 @@ def twin_stream(prop, profile, nscripts, ops):
                 if l.split("|")[0] in ops:
                     if m == "c":
                         chk.count("world_stream_queries")
-                    if "TWIN-DIFF" in o or o.startswith("err") or "other:" in o:
+                    if "TWIN-DIFF" in o or o.startswith("err") or "other:" in o or "?" in o:
                         s, e = runner.script_of(lines, i)
                         fails.append(dict(mode=m, script=lines[s:e], message="after declaration / hierarchy changes %s returned %s" % (l, o), observed=o, layer="world"))
                         break
